@@ -1,6 +1,6 @@
 """C20 - URLs and caches are safe to share between threads (necessary structure under the GIL)."""
 from ..rules import immut
-from ..rules.pyxres import px5, px_rules
+from ..rules.pyxres import px5
 
 META = {"note": "decides necessary structural conditions under the GIL (no GIL release / Python-level operation while the "
                 "static buffer is live; racing cache fills store equal values; no shared mutable module state); actual "
@@ -11,12 +11,10 @@ def run(ctx):
     ctx.explanation = (
         "Static analysis of the necessary structure, not of schedules. Decided: (PX5) every function reachable from the "
         "compiled quoter's critical section is a cdef function that neither releases the GIL nor performs a Python-level "
-        "call/operation while the process-global static buffer is live (the copy-out is the returned value); (PX1-PX4) the "
-        "writer's buffer discipline; (IM4) every memoised function/property is a pure function of its key, so racing "
+        "call/operation while the process-global static buffer is live (the copy-out is the returned value); (IM4) every memoised function/property is a pure function of its key, so racing "
         "cache fills store equal values; (IM5) cache_configure only re-wraps the same functions; (IM8) no module-level "
         "container is mutated; (IM1) no slot of a live URL is ever assigned. Not decided: the interleavings themselves.")
-    px5(ctx)
-    px_rules(ctx)
+    px5(ctx)        # the writer's memory discipline (PX1-PX4, PX6/PX7) is crash-safety: C19, not claimed here
     immut.im1_im2(ctx)
     immut.im4(ctx)
     immut.im5(ctx)
